@@ -52,8 +52,9 @@ Example C08_init_nonvacuous : wf_table ex_table = true /\ first_state ex_table =
 Proof. vm_compute. split; reflexivity. Qed.
 Print Assumptions C08_init_nonvacuous.
 
-(* The template as it was before the two `fix:` commits (guard line without alternative text, no NoTransition at
-   the end of process): the same model reproduces the three defects that were observed on the real code. *)
+(* The template as it was before the `fix:` commits (guard line without alternative text): the same model
+   reproduces the two block-structure defects that were observed on the real code.  (The third one, silence in a
+   target-only state, was a property of transitionsperstate, which now lists target-only states: corpus/C08.) *)
 Definition old_template : list tline :=
   (py_init ++
    [(4, KDefProcess); (8, KSkip); (8, KBegin 1); (8, KIfState); (12, KCallState); (12, KReturn); (8, KEnd 1); (0, KSkip);
@@ -64,16 +65,11 @@ Definition old_template : list tline :=
 Example C08_old_template_refuted :
   (* unguarded row followed by a guarded row: IndentationError *)
   parse_indent (gen_from old_template [mkRow "SA" "EvX" "SB" "OnA" "None"; mkRow "SA" "EvX" "SA" "OnB" "GuardG"]) = None /\
-  (* guarded row + fallback: the fallback never fires; target-only state: no NoTransition *)
+  (* guarded row + fallback: the fallback never fires *)
   (let t := [mkRow "SA" "EvX" "SB" "OnA" "GuardG"; mkRow "SA" "EvX" "SB" "OnB" "None"] in
    match parse_indent (gen_from old_template t) with
    | Some p => run_py p ["EvX"; "EvX"] (fun _ _ => false)
    | None => None
-   end = Some [([CEntry "SA" "EventStartup"], "SA"); ([CGuard "GuardG" "EvX"; CNoTrans "EvX"], "SA"); ([CGuard "GuardG" "EvX"; CNoTrans "EvX"], "SA")]) /\
-  (let t := [mkRow "SA" "EvX" "SB" "OnA" "None"] in
-   match parse_indent (gen_from old_template t) with
-   | Some p => run_py p ["EvX"; "EvX"] (fun _ _ => false)
-   | None => None
-   end = Some [([CEntry "SA" "EventStartup"], "SA"); ([CExit "SA" "EvX"; CAction "OnA" "EvX"; CEntry "SB" "EvX"], "SB"); ([], "SB")]).
+   end = Some [([CEntry "SA" "EventStartup"], "SA"); ([CGuard "GuardG" "EvX"; CNoTrans "EvX"], "SA"); ([CGuard "GuardG" "EvX"; CNoTrans "EvX"], "SA")]).
 Proof. vm_compute. repeat split; reflexivity. Qed.
 Print Assumptions C08_old_template_refuted.
